@@ -7,5 +7,6 @@ CONSTANTS
   CtlLensOf <- McCtlLensOf
   MaxCtlOf <- McMaxCtlOf
   ReadSizesOf <- McReadSizesOf
+  ReadBufsOf <- McReadBufsOf
 INVARIANTS Intact
 CHECK_DEADLOCK FALSE
